@@ -194,7 +194,9 @@ AmTimerAttr(t) ==
 AmErrorInfo(a) ==
   LET c == a.status.error_code IN
   IF c = 0 THEN AmV(<<>>)
-  ELSE AmOneOf(<< << [code |-> c, description |-> <<>>] >>, << [code |-> c, description |-> a.err] >> >>)
+  \* the text of the most recent error information frame for this AC since its error state was last
+  \* cleared, absent if there has been none
+  ELSE AmV(<< [code |-> c, description |-> a.err] >>)
 
 AcSnap(proto, a, zoneSnaps) ==
   LET ab      == a.ability
@@ -353,7 +355,9 @@ AmAcSetMode(proto, call, a) ==
       wout == AmAcCtl(proto, n, "UNCHANGED", mode, "UNCHANGED", <<>>)
   IN IF mode \notin AmSupportedModes(a.ability) THEN AmRefuse
      ELSE IF ~AmPowerOn(call) THEN AmAccept(<<wout>>)
-     ELSE IF ~Absent(a.status) /\ Eq(a.status.power_state, "OFF") THEN AmAccept(<<won>>)
+     \* api.py: "powers on the air-conditioner if it is currently turned off": a unit reported off
+     \* (also off in away mode / forced off) must get TURN_ON; for a running or unknown one both read right
+     ELSE IF ~Absent(a.status) /\ a.status.power_state \in {"OFF", "OFF_AWAY", "OFF_FORCED"} THEN AmAccept(<<won>>)
      ELSE AmAccept(<<won, wout>>)
 
 \* api.py set_fan_speed: "ValueError: The requested fan speed is not supported"
